@@ -347,6 +347,14 @@ def build(e, env):
         return M.MatchesStructure(**{k: B(x) for k, x in e[1].items()})
     if op == "MatchesStructureByEquality":
         return M.MatchesStructure.byEquality(**e[1])
+    if op == "MatchesStructureUpdate":
+        # update(): a matcher replaces / adds the attribute's, None removes it; a new matcher is returned
+        return M.MatchesStructure(**{k: B(x) for k, x in e[1].items()}).update(
+            **{k: (None if x is None else B(x)) for k, x in e[2].items()})
+    if op == "MatchesStructureFromExample":
+        return M.MatchesStructure.fromExample(Obj(**e[1]), *e[2])
+    if op == "MatchesStructureByMatcher":
+        return M.MatchesStructure.byMatcher(getattr(M, e[1]), **e[2])
     if op == "MatchesException":
         how = e[1]
         if how[0] == "type":
@@ -485,6 +493,20 @@ def sem(e, v, env, raw=None):
         return all([S(m, getattr(v, k)) for k, m in e[1].items()])
     if op == "MatchesStructureByEquality":
         return all(getattr(v, k) == c for k, c in e[1].items())
+    if op == "MatchesStructureUpdate":
+        merged = dict(e[1])
+        for k, x in e[2].items():
+            if x is None:
+                merged.pop(k, None)
+            else:
+                merged[k] = x
+        return all([S(m, getattr(v, k)) for k, m in merged.items()])
+    if op == "MatchesStructureFromExample":
+        return all(getattr(v, k) == e[1][k] for k in e[2])
+    if op == "MatchesStructureByMatcher":
+        cmp = {"LessThan": lambda a, b: a < b, "GreaterThan": lambda a, b: a > b, "Equals": lambda a, b: a == b,
+               "NotEquals": lambda a, b: a != b}[e[1]]
+        return all(cmp(getattr(v, k), c) for k, c in e[2].items())
     if op == "MatchesException":
         how = e[1]
         etype, evalue = v[0], v[1]
@@ -662,6 +684,13 @@ def leaves(domain, rng=None):
               ["KeysEqual", ["a", "#1", "b"]], ["KeysEqual", ["@j2", "@j1"]],
               ["KeysEqual", []], ["HasLength", 1], ["Contains", "a"], ["IsInstance", ["dict"]]]
     elif domain == "obj":
+        L += [["MatchesStructureFromExample", {"a": 1, "b": 2, "s": "ab"}, ["a", "s"]],
+              ["MatchesStructureFromExample", {"a": 0, "b": 0, "s": ""}, []],
+              ["MatchesStructureByMatcher", "LessThan", {"a": 1, "b": 3}],
+              ["MatchesStructureByMatcher", "NotEquals", {"a": 0}],
+              ["MatchesStructureUpdate", {"a": ["Equals", 1]}, {"a": None}],
+              ["MatchesStructureUpdate", {"a": ["Equals", 1]}, {"b": ["Equals", 2], "a": ["LessThan", 5]}],
+              ["MatchesStructureUpdate", {"a": ["Equals", 7], "b": ["Equals", 2]}, {"a": None, "s": ["Equals", "ab"]}]]
         L += [["MatchesStructureByEquality", {"a": 1}], ["MatchesStructureByEquality", {"a": 0, "s": ""}],
               ["IsInstance", ["Obj"]]]
     elif domain == "exc":
@@ -717,6 +746,10 @@ def combos(domain, subs, rng, depth):
     if domain == "obj":
         out.append(lambda: ["MatchesStructure", {k: subs("int" if k != "s" else "str")
                                                  for k in rng.sample(["a", "b", "s"], rng.randint(0, 3))}])
+        out.append(lambda: ["MatchesStructureUpdate",
+                            {k: subs("int" if k != "s" else "str") for k in rng.sample(["a", "b", "s"], rng.randint(0, 3))},
+                            {k: (None if rng.random() < 0.4 else subs("int" if k != "s" else "str"))
+                             for k in rng.sample(["a", "b", "s"], rng.randint(1, 3))}])
     if domain == "exc":
         out.append(lambda: ["MatchesException",
                             ["type_m", rng.choice(["ValueError", "Exception", "KeyError"]), subs("str")]])
